@@ -25,8 +25,10 @@ def run(ctx: Ctx) -> None:
     ctx.rule("R-REWRITE-tags", "every rewriter protects template tags")
     ctx.rule("R-NONINT", "the option influences only its guarded consumer call")
     ctx.rule("R-CONSUMER", "the switch guards the rewrite with the right rewriter")
+    ctx.rule("R-REWRITE-order", "the ellipsis pass is the last text rewrite before rendering")
     ctx.run(rewrite.check_ellipsis_shape)
     ctx.run(rewrite.check_rewrite_scope)
     ctx.run(rewrite.check_coalesce_and_tags)
     ctx.run(rewrite.check_nonint, ("ellipses",))
     ctx.run(optflow.check_consumers, ("ellipses",))
+    ctx.run(rewrite.check_rewrite_order)
